@@ -211,6 +211,16 @@ func runCase(c *core.Case) {
 			scoped.Login, scoped.Name, scoped.FileRoot = "scoped", "Scoped", own+rootSuffix
 			if err := srv.S.AccountManager.Create(scoped); err == nil {
 				account, zoneRoot = "scoped", own
+				// the server-wide root is outside this client's file root: a canary in it must never be disclosed
+				t := fmt.Sprintf("ZQ%012x", r.Uint64()&0xffffffffffff)
+				sb.tokens = append(sb.tokens, t)
+				fixture.WriteFile(filepath.Join(srv.FileRoot, t+".txt"), t+"-content")
+				if (c.Index/3)%4 == 2 {
+					// the account's own folder is not there (renamed away by somebody, or never created): its requests
+					// must fail, not quietly act on some other folder
+					os.Rename(own, own+"-moved")
+					c.Count("account_root_missing", 1)
+				}
 			}
 		}
 	}
